@@ -1,6 +1,6 @@
 import Hls.Playlist.MediaStructure
 import Hls.Playlist.MediaNear
-import Hls.Playlist.MediaGrammarMain
+import Hls.Playlist.MediaGrammarTime
 /-!
 # C15 — Playlist decoder is total; encoder output is grammatical M3U8 (MEDIA playlists)
 
@@ -51,11 +51,11 @@ theorem c15_remarshal (C : Codec) (buf : Str) (m : Media) (_ : Media.unmarshal C
   simp [unlines]
 
 /-- a decoded value exists (non-vacuity of the three theorems above) -/
-example : Media.unmarshal Codec.exact cs!"#EXTM3U\n#EXT-X-TARGETDURATION:2\n#EXTINF:2.00000,\nu\n" =
+example : Media.unmarshal Codec.exactGo cs!"#EXTM3U\n#EXT-X-TARGETDURATION:2\n#EXTINF:2.00000,\nu\n" =
     .ok { targetDuration := 2, segments := [{ duration := 2000000000, uri := cs!"u" }] } := by decide
 
 /-- regression witness: the guard the structure clause rests on — `EXTINF:0` is rejected -/
-example : Media.unmarshal Codec.exact cs!"#EXTM3U\n#EXT-X-TARGETDURATION:2\n#EXTINF:0.00000,\nu\n" = .err := by decide
+example : Media.unmarshal Codec.exactGo cs!"#EXTM3U\n#EXT-X-TARGETDURATION:2\n#EXTINF:0.00000,\nu\n" = .err := by decide
 
 /-! ## encoder output is grammatical
 
@@ -88,9 +88,16 @@ theorem c15_grammar_strict (C : Codec) (hC : C.Valid) (hT : TimeGrammatical C) (
   c15_grammar C hC hT false p hw (Or.inr hb)
 
 open Hls.Playlist.MG in
-/-- the hypotheses are jointly satisfiable -/
-theorem c15_codec_exists : Codec.exact.Valid ∧ TimeGrammatical Codec.exact :=
-  ⟨Codec.exact_valid, exact_timeGrammatical⟩
+/-- the hypotheses are jointly satisfiable, with the real Go time layout -/
+theorem c15_codec_exists : Codec.exactGo.Valid ∧ TimeGrammatical Codec.exactGo :=
+  ⟨Codec.exactGo_valid, go_TimeGrammatical Codec.exact⟩
+
+open Hls.Playlist.MG in
+/-- `TimeGrammatical` is PROVED for the Go layout: `Time.Format` output of a well-formed time is a
+date-time of the grammar.  So for the driver's codec only the float envelope is assumed. -/
+theorem c15_grammar_go (hE : IeeeEnvelope) (p : Media) (hw : WFMedia p) :
+    accepts true (Media.marshal Codec.go p) = true :=
+  c15_grammar Codec.go (Codec.go_valid hE) (go_TimeGrammatical Codec.go) true p hw (Or.inl rfl)
 
 /-- the Go layout on samples ("test", not an obligation): `Time.Format` output is a date-time of the grammar -/
 example : Hls.Playlist.MG.isDateTime (goFormatTime { sec := 1408924800, nsec := 123456789, off := -19800 }) = true ∧
@@ -106,8 +113,8 @@ def pF17 : Media :=
 
 set_option maxRecDepth 100000 in
 theorem c15_F17_unquoted_byterange :
-    WFMedia pF17 ∧ Hls.Playlist.MG.accepts false (Media.marshal Codec.exact pF17) = false ∧
-      Hls.Playlist.MG.accepts true (Media.marshal Codec.exact pF17) = true := by decide
+    WFMedia pF17 ∧ Hls.Playlist.MG.accepts false (Media.marshal Codec.exactGo pF17) = false ∧
+      Hls.Playlist.MG.accepts true (Media.marshal Codec.exactGo pF17) = true := by decide
 
 set_option maxRecDepth 100000 in
 /-- **F3** on the unchanged tree: `#EXT-X-SERVER-CONTROL:,PART-HOLD-BACK=3.00000` is not grammatical in
@@ -115,7 +122,7 @@ either dialect; the repaired encoder's output is -/
 theorem c15_legacy_F3_not_grammatical :
     let p : Media := { version := 9, targetDuration := 2, serverControl := some { partHoldBack := some 3000000000 },
                        segments := [{ duration := 2000000000, uri := cs!"s.ts" }] }
-    WFMedia p ∧ Hls.Playlist.MG.accepts true (Media.marshalLegacy Codec.exact p) = false ∧
-      Hls.Playlist.MG.accepts false (Media.marshal Codec.exact p) = true := by decide
+    WFMedia p ∧ Hls.Playlist.MG.accepts true (Media.marshalLegacy Codec.exactGo p) = false ∧
+      Hls.Playlist.MG.accepts false (Media.marshal Codec.exactGo p) = true := by decide
 
 end Hls.Props.C15
